@@ -14,6 +14,8 @@ import (
 	"encoding/hex"
 	"encoding/json"
 	"fmt"
+	"github.com/BondMachineHQ/BondMachine/pkg/bmcluster"
+	"github.com/BondMachineHQ/BondMachine/pkg/etherbond"
 	"os"
 	"path/filepath"
 	"regexp"
@@ -162,6 +164,34 @@ func c07Child(mode, in, out string) int {
 			return bm.Write_verilog_board(new(bondmachine.Config), "bondmachine", "zedboard", &bondmachine.IOmap{Assoc: ioAssoc(false)}, []bondmachine.ExtraModule{ex})
 		})
 	}
+	// every input and output of the machine carried by an etherbond peer (the parameters of the extra
+	// module, its Verilog and the top level that instantiates it)
+	board("board basys3: every input and output on an etherbond peer", func() string {
+		assoc := map[string]string{}
+		peerA := bmcluster.Peer{PeerId: 1, PeerName: "a"}
+		peerB := bmcluster.Peer{PeerId: 2, PeerName: "b"}
+		for i := 0; i < bm.Inputs; i++ {
+			assoc["i"+strconv.Itoa(i)] = strconv.Itoa(20 + i)
+			peerA.Inputs = append(peerA.Inputs, uint32(20+i))
+			peerB.Outputs = append(peerB.Outputs, uint32(20+i))
+		}
+		for i := 0; i < bm.Outputs; i++ {
+			assoc["o"+strconv.Itoa(i)] = strconv.Itoa(10 + i)
+			peerA.Outputs = append(peerA.Outputs, uint32(10+i))
+			peerB.Inputs = append(peerB.Inputs, uint32(10+i))
+		}
+		ethb := &bondmachine.Etherbond_extra{Config: &etherbond.Config{Rsize: uint8(bm.Rsize)}, Flavor: "enc60j28",
+			Cluster: &bmcluster.Cluster{ClusterId: 1, Peers: []bmcluster.Peer{peerA, peerB}}, Macs: new(etherbond.Macs),
+			Maps: &bondmachine.IOmap{Assoc: assoc}, PeerID: 1, Mac: "028800000001"}
+		mods := []bondmachine.ExtraModule{ethb}
+		p := ethb.Get_Params().Params
+		text := "// parameters: outputs=" + p["outputs"] + " output_ids=" + p["output_ids"] + " destinations=" + p["destinations"] + " inputs=" + p["inputs"] + " input_ids=" + p["input_ids"] + "\n"
+		ev, err := bm.Write_verilog_etherbond("etherbond", "basys3", &bondmachine.IOmap{Assoc: ioAssoc(false)}, mods)
+		if err != nil {
+			return text + "// etherbond module: " + err.Error() + "\n"
+		}
+		return text + ev + bm.Write_verilog_board(new(bondmachine.Config), "bondmachine", "basys3", &bondmachine.IOmap{Assoc: ioAssoc(false)}, mods)
+	})
 	if err := os.WriteFile(out, []byte(sb.String()), 0o644); err != nil {
 		return 2
 	}
@@ -292,6 +322,24 @@ loop:
 %meta ioatt mid cp:cpb, type:input, index:0
 %meta ioatt out0 cp:cpb, type:output, index:0
 %meta ioatt out0 cp:bm, type:output, index:0
+`
+
+// c07SizedFloats: float literals with and without an explicit width, next to a hexadecimal literal that
+// begins like one (which importer takes a literal must not depend on the order of a map of matchers).
+const c07SizedFloats = `%meta bmdef global registersize:32
+%section code .romtext iomode:async
+	entry _start
+_start:
+	rset r1, 0f<16>1.5
+	rset r2, 0f<32>2.5
+	rset r3, 0f1.25
+	rset r0, 0x0f
+	r2o r1, o0
+	j _start
+%endsection
+%meta cpdef cpu romcode: code, execmode: ha
+%meta ioatt out0 cp: cpu, index:0, type:output
+%meta ioatt out0 cp: bm, index:0, type:output
 `
 
 // c07GoTwoChannels: a goroutine started with two channel arguments (what the new processor is attached
@@ -508,6 +556,8 @@ func runC07(r *evid.Run) {
 	basmJob("dynamic-opcodes-in-three-orders", c07Handwritten2)
 	basmRuns = r.Pick(48, 120)
 	basmJob("literal-load-with-tied-alternatives", c07Handwritten3)
+	basmJob("sized-float-literals", c07SizedFloats)
+	basmJob("sized-float-literals-16-bit-registers", strings.Replace(strings.Replace(c07SizedFloats, "registersize:32", "registersize:16", 1), "\trset r2, 0f<32>2.5\n\trset r3, 0f1.25\n", "", 1))
 	basmRuns = nRuns
 	for mask := 1; mask < 8; mask++ {
 		basmJob(fmt.Sprintf("fragment-calls-mask-%d", mask), callSections(mask))
